@@ -192,6 +192,10 @@ PROPS["C16"] = {
 	] + [
 		H("c16_block_index_sparse", CONT, f"{VT}::block_index::kani_harness", funcs=["BlockIndex::from_blob", "BlockDefinition::from_blob", "BlockIndex::get_block", "BlockIndex::get_bbox_pyramid", "TileBBoxPyramid::include_bbox"],
 			bounds="sparse index of 2 distinct blocks at symbolic levels/positions with partial local boxes", sample="two symbolic block records written by the harness' own encoder", stubs=[POW, "HashMap model"], timeout=900),
+	] + [
+		H(f"c16_block_index_sparse_{kind}_{za}_{zb}", CONT, f"{VT}::block_index::kani_harness", funcs=["BlockIndex::from_blob", "BlockDefinition::from_blob", "BlockIndex::get_block"] + (["BlockIndex::get_bbox_pyramid", "TileBBoxPyramid::include_bbox"] if kind == "coverage" else []),
+			bounds=f"sparse index of 2 distinct blocks at levels {za} and {zb} (concrete per instance), symbolic block positions (not neighbours in general) and partial local boxes", sample="two symbolic block records written by the harness' own encoder", stubs=[POW, "HashMap model"], timeout=900, tier=t)
+		for kind, za, zb, t in [("accept", 12, 12, "quick"), ("accept", 5, 12, "quick"), ("accept", 31, 31, "thorough"), ("coverage", 12, 12, "thorough"), ("coverage", 5, 12, "thorough")]
 	],
 	"meta": {
 		"assumptions": ["HashMap model in BlockIndex"],
@@ -454,6 +458,18 @@ def _c06_extra(prop, tier):
 
 
 PROPS["C06"]["extra"] = _c06_extra
+
+
+# C09: the filter operations themselves (async + dyn: out of reach for CBMC) are decided on their guard/clip skeleton by Engine B
+def _c09_extra(prop, tier):
+	import engine_b
+	return engine_b.run_c09_ops(prop, tier)
+
+
+PROPS["C09"]["extra"] = _c09_extra
+PROPS["C09"]["meta"]["assumptions"] = ["filter_zoom / filter_bbox Operation::get_tile_data and get_tile_stream: the containment guard (contains_coord) and the clip (intersect_pyramid) on the operation's own coverage pyramid are extracted from the nightly MIR of the async closures; z3/cvc5 decide lookup = coverage and stream = lookups inside the box for every level, coverage box (also empty), requested box and tile; data-dependent early exits before the source is consulted make the result inconclusive; a SAT model is replayed on real pipelines built by the real factory over from_debug",
+	"the coverage pyramid the operations consult is built by the pyramid/box kernels decided by the Kani harnesses of this check (set_zoom_min/max, intersect_geo_bbox, intersect_pyramid, contains_coord)"]
+PROPS["C09"]["meta"]["out"] = ["Operation::build glue (which arguments reach set_zoom_min/max / intersect_geo_bbox) and VPL argument parsing", "tilejson narrowing", "chains of filters (each operation is decided against an arbitrary source)", "the source's own stream/lookup agreement"]
 PROPS["C06"]["harnesses"] = [h for h in PROPS["C06"]["harnesses"] if h.name in ("c06_h1_coverage", "c06_add_border")]
 PROPS["C06"]["meta"]["assumptions"].append("transform consistency: the call sequences of flip_y/swap_xy are extracted from the MIR of new_from_reader, get_tile_data, get_bbox_tile_stream (and its map_coord closure) for each of the 4 flag assignments and compared in z3/cvc5 against each other and the specification; data-dependent early exits before the source is consulted make the result inconclusive")
 PROPS["C06"]["meta"]["out"] += ["payloads on the lookup/stream path (the async reader is not executed; C04 decides the recompression pipeline)", "the requested-pyramid filter on the lookup/stream path (neither path consults it on this tree)"]
